@@ -54,12 +54,12 @@ def _unpack6bitascii(data):
     """Unpack the 6bit ascii encoded string."""
     string = ''
     for i in range(0, len(data), 3):
-        d = data[i:i+3]
+        d = list(data[i:i+3]) + [0, 0]
         string += chr(0x20 + (d[0] & 0x3f))
         string += chr(0x20 + (((d[0] & 0xc0) >> 6) | ((d[1] & 0xf) << 2)))
         string += chr(0x20 + (((d[1] & 0xf0) >> 4) | ((d[2] & 0x3) << 4)))
         string += chr(0x20 + ((d[2] & 0xfc) >> 2))
-    return string
+    return string[:len(data) * 8 // 6]
 
 
 class TypeLengthString(object):
